@@ -899,6 +899,45 @@ fn check_value_types(cx: &Ctx, pats: &Vec<Vec<u8>>, hay: &Vec<u8>) {
     value_type_check!(cx, isize, "isize", pats, hay);
 }
 
+/// C13 / C07: the constructors of the wrong match kind must panic (documented), otherwise a scan can run on an
+/// automaton whose fail links it does not understand (dead-state self loop => no termination)
+fn check_kind_guards(cx: &Ctx) {
+    if !(cx.on("C13") || cx.on("C07")) { return; }
+    let st = cx.st;
+    let pats: Vec<Vec<u8>> = vec![b"ab".to_vec(), "全世".as_bytes().to_vec()];
+    let vals: Vec<u32> = vec![0, 1];
+    for kind in KINDS {
+        st.tick("C13");
+        let bw = build_bw(&pats, &vals, kind, 16).unwrap();
+        let cw = build_cw(&pats, &vals, kind, 16).unwrap();
+        let hay = "abb全世世";
+        let std_kind = kind == MatchKind::Standard;
+        let mut results: Vec<(&str, bool, bool)> = vec![]; // (constructor, panicked, must_panic)
+        results.push(("bytewise find_iter", catch_unwind(AssertUnwindSafe(|| { let _ = bw.find_iter(hay); })).is_err(), !std_kind));
+        results.push(("bytewise find_iter_from_iter", catch_unwind(AssertUnwindSafe(|| { let _ = bw.find_iter_from_iter(hay.bytes()); })).is_err(), !std_kind));
+        results.push(("bytewise find_overlapping_iter", catch_unwind(AssertUnwindSafe(|| { let _ = bw.find_overlapping_iter(hay); })).is_err(), !std_kind));
+        results.push(("bytewise find_overlapping_iter_from_iter", catch_unwind(AssertUnwindSafe(|| { let _ = bw.find_overlapping_iter_from_iter(hay.bytes()); })).is_err(), !std_kind));
+        results.push(("bytewise find_overlapping_no_suffix_iter", catch_unwind(AssertUnwindSafe(|| { let _ = bw.find_overlapping_no_suffix_iter(hay); })).is_err(), !std_kind));
+        results.push(("bytewise find_overlapping_no_suffix_iter_from_iter", catch_unwind(AssertUnwindSafe(|| { let _ = bw.find_overlapping_no_suffix_iter_from_iter(hay.bytes()); })).is_err(), !std_kind));
+        results.push(("bytewise leftmost_find_iter", catch_unwind(AssertUnwindSafe(|| { let _ = bw.leftmost_find_iter(hay); })).is_err(), std_kind));
+        results.push(("charwise find_iter", catch_unwind(AssertUnwindSafe(|| { let _ = cw.find_iter(hay); })).is_err(), !std_kind));
+        results.push(("charwise find_iter_from_iter", catch_unwind(AssertUnwindSafe(|| { let _ = unsafe { cw.find_iter_from_iter(hay.bytes()) }; })).is_err(), !std_kind));
+        results.push(("charwise find_overlapping_iter", catch_unwind(AssertUnwindSafe(|| { let _ = cw.find_overlapping_iter(hay); })).is_err(), !std_kind));
+        results.push(("charwise find_overlapping_iter_from_iter", catch_unwind(AssertUnwindSafe(|| { let _ = unsafe { cw.find_overlapping_iter_from_iter(hay.bytes()) }; })).is_err(), !std_kind));
+        results.push(("charwise find_overlapping_no_suffix_iter", catch_unwind(AssertUnwindSafe(|| { let _ = cw.find_overlapping_no_suffix_iter(hay); })).is_err(), !std_kind));
+        results.push(("charwise find_overlapping_no_suffix_iter_from_iter", catch_unwind(AssertUnwindSafe(|| { let _ = unsafe { cw.find_overlapping_no_suffix_iter_from_iter(hay.bytes()) }; })).is_err(), !std_kind));
+        results.push(("charwise leftmost_find_iter", catch_unwind(AssertUnwindSafe(|| { let _ = cw.leftmost_find_iter(hay); })).is_err(), std_kind));
+        for (name, panicked, must) in results {
+            if panicked != must {
+                for pr in ["C13", "C07"] { if cx.on(pr) {
+                    st.fail(mk_fail(pr, "search constructors accept exactly their own match kind (documented panic otherwise)", name, kind, 16, &pats, &vals, hay.as_bytes(),
+                                    if must { "panic".into() } else { "no panic".into() }, if panicked { "panic".into() } else { "no panic".into() }));
+                } }
+            }
+        }
+    }
+}
+
 fn check_conversion(cx: &Ctx) {
     if !cx.on("C10") { return; }
     let st = cx.st;
@@ -1253,6 +1292,7 @@ fn main() {
         run_boundary_chars(&cx);
     }
     check_conversion(&cx);
+    check_kind_guards(&cx);
     let vt_pats = vec![b(b"ab"), b(b"b"), b(b"abc"), b(b"c"), b("é".as_bytes())];
     check_value_types(&cx, &vt_pats, &b("xabcéb".as_bytes()));
     check_value_types(&cx, &vec![b(&[0, 1]), b(&[1]), b(&[0xff, 0])], &b(&[0, 1, 0xff, 0, 1]));
